@@ -2,6 +2,10 @@
 from vf.props.C13 import e2job
 
 ASSUMPTIONS = [
+    "E1, writer alone (a necessary condition of write-then-read): on the fixture 'eblif-bus' (a two-bit port on a hierarchical cell, a "
+    "two-bit net, two leaf instances) the real edif writer is run on TWO symbolic connection patterns; if all written texts are equal "
+    "(rope equality) then every instance pin and port pin sits on the same net bit in both -- two different netlists are never written as the "
+    "same text",
     "E1 lemma on the writer: ComposeEdif._output_name_of_cable_wire_ (file object stubbed as a write recorder) emits the plain name "
     "only for a one-wire non-array cable and otherwise exactly rename <id>_<i>_ \"<name>[<i>]\" with i = position + base index "
     "(width 1..2, base index 0..7, symbolic array flag); with the naming kernels this keeps width, array-ness and base index",
@@ -28,6 +32,7 @@ def jobs(tier, prop="C03"):
         for w in (1, 2):
             out.append(dict(name="C03/cable_wire_name{width=%d}" % w, engine="E1/symheap", module="vf.e1.edif_jobs",
                             func="cable_wire_name_job", timeout=900, args=dict(width=w, tier=tier)))
+        out.append(dict(name="C03/edif-writer-injective", engine="E1/symheap", module="vf.e1.compose_jobs", func="writer_injective_job", timeout=3000, args=dict(which="edif", tier=tier)))
         for w in (1, 3):
             out.append(dict(name="C03/port_ref{width=%d}" % w, engine="E1/symheap", module="vf.e1.edif_jobs",
                             func="port_ref_job", timeout=900, args=dict(width=w, tier=tier)))
